@@ -159,7 +159,11 @@ func Cases(t *Tree, rng *rand.Rand, o CaseOpts) []*Case {
 		return c
 	}
 	for _, i := range t.Ifaces {
-		for k := 0; k < o.PerIface; k++ {
+		n := o.PerIface
+		if n > 1 && len(i.Tags) > 0 && i.Tags[0] == "fixed" {
+			n = 1 // the fixed shapes are in every tree: one configuration per tree is enough
+		}
+		for k := 0; k < n; k++ {
 			out = append(out, mk([]*Iface{i}))
 		}
 	}
